@@ -129,7 +129,16 @@ def build(ctx=None):
   # compat pairs as the matcher instance holds them
   m = ctx.matcher(ctx.root_node)
   compat = []
-  for a, b in m._compatible_builtins:   # pylint: disable=protected-access
+  compat_error = None
+  raw = m._compatible_builtins   # pylint: disable=protected-access
+  if not isinstance(raw, (list, tuple)) or not all(
+      isinstance(p, tuple) and len(p) == 2 and all(isinstance(x, str) for x in p) for p in raw):
+    # not the list of (compatible, builtin) name pairs the model mirrors: fail closed (the check then targets
+    # every promotion the model was proved against)
+    compat_error = "AbstractMatcher._compatible_builtins is %s, expected a list of (str, str) pairs" % (
+        type(raw).__name__)
+    raw = []
+  for a, b in raw:
     if a == "builtins.None":
       continue          # no class of that name exists; the pair can never fire
     if a not in known or b not in known:
@@ -160,7 +169,22 @@ def build(ctx=None):
     if n not in known:
       raise TranslateError("class-object accept list mentions unknown %s" % n)
   return {"classes": classes, "compat": compat, "noniter_abcs": conflicting, "str_types": str_types,
-          "function_type": ft, "class_accept": class_accept, "attrs": sorted(relevant)}
+          "function_type": ft, "class_accept": class_accept, "attrs": sorted(relevant),
+          "compat_error": compat_error}
+
+
+# the compat pairs Model.v's run-time table (rt_reach + the two flagged deviations) was proved against
+EXPECTED_COMPAT = [("builtins.int", "builtins.float"), ("builtins.int", "builtins.complex"),
+                   ("builtins.float", "builtins.complex"), ("builtins.bytearray", "builtins.bytes"),
+                   ("builtins.memoryview", "builtins.bytes"), ("builtins.NoneType", "builtins.bool")]
+
+
+def compat_drift(tbl):
+  """Symmetric difference between the regenerated compat pairs and the ones the model was proved against."""
+  if tbl.get("compat_error"):
+    return list(EXPECTED_COMPAT)
+  have, want = set(map(tuple, tbl["compat"])), set(EXPECTED_COMPAT)
+  return sorted(have ^ want)
 
 
 def render_coq(tbl):
